@@ -16,3 +16,10 @@ Theorem C19_batch_continues : forall F R (f : F -> R) stop files,
   forallb (fun x => negb (stop (f x))) files = true -> main_seq F R f stop files = map f files.
 Proof. exact no_stop_all. Qed.
 Print Assumptions C19_batch_continues.
+
+(* ... and the batch then exits with status 1 *)
+Theorem C19_rejected_file_fails_batch : forall F R (f : F -> R) (stop status : R -> bool) files x,
+  forallb (fun y => negb (stop (f y))) files = true -> In x files -> status (f x) = true ->
+  main_seq F R f stop files = map f files /\ exit_status R status (main_seq F R f stop files) = true.
+Proof. exact rejected_file_fails_batch. Qed.
+Print Assumptions C19_rejected_file_fails_batch.
